@@ -193,14 +193,18 @@ def run(ctx):
     ctx.ob('CACHE', 'get_trust', okc and bool(gt.defs().get(0)), gt.where(), 'get_trust returns the trust_cache entry or the constant 0.0: %s' % okc)
     cb = prog.inl(ENG + '::compute_global_trust_internal', keep=r'::compute_multi_factor_adjustment$')
     ins = [c for c in cb.calls(r'HashMap::<.*>::insert$') if 'trust_cache' in cb.expr(c.args[0]).show()]
+    # the score vector, by role: the map of f64 scores that the computation returns
+    tv_role = set()
+    for d in cb.defs().get(0, []):
+        if d[0] == 's' and 'p' in d[3]['r'].get('o', {}) and len(d[3]['r']['o']['p']) == 1:
+            l0 = d[3]['r']['o']['p'][0]
+            if 'HashMap<' in cb.local_ty(l0) and 'f64' in cb.local_ty(l0):
+                tv_role |= L.alias_of(cb, [l0])
     okw = False
     for c in ins:
         sl = cb.backward_locals([c.args[2]['p'][0]], limit=1500) if 'p' in c.args[2] else set()
-        okw = any(cb.local_name(l) == 'trust_vector' for l in sl)
-    retv = False
-    for d in cb.defs().get(0, []):
-        if d[0] == 's' and 'p' in d[3]['r'].get('o', {}):
-            retv = cb.local_name(d[3]['r']['o']['p'][0]) == 'trust_vector'
+        okw = bool(sl & tv_role)
+    retv = bool(tv_role)
     ctx.ob('CACHE', 'cache-written-from-result', okw and retv, cb.where(), 'trust_cache is filled from trust_vector (%s), which is what the computation returns (%s)' % (okw, retv))
     ctx.floor('CACHE', 2)
 
@@ -208,14 +212,14 @@ def run(ctx):
     # "scores sum to 1": after total = sum(values(trust_vector)) nothing but the division by that total may change an
     # entry of trust_vector (a later clamp, boost, decay, insert or removal breaks the sum); the published caches are
     # filled after it (CACHE above) and the vector itself is returned.
-    tv = set(cb.locals_named('trust_vector'))
+    tv = set(tv_role)
     MUTV = r'HashMap::<.*>::(iter_mut|values_mut|insert|get_mut|entry|retain|remove|clear|extend|drain|remove_entry)$'
 
     def on_tv(c):
         if not c.args:
             return False
         return bool(set(x.a for x in cb.expr(c.args[0]).walk() if x.k in ('let', 'local') and isinstance(x.a, int)) & tv)
-    sums = [c for c in cb.calls(r'iter::Iterator::sum$|Iterator>::sum$|Iterator::sum$') if on_tv(c) or 'trust_vector' in cb.expr(c.args[0]).show()]
+    sums = [c for c in cb.calls(r'iter::Iterator::sum$|Iterator>::sum$|Iterator::sum$') if on_tv(c) or L.touches(cb, cb.expr(c.args[0]), tv)]
     order = L.rpo(cb)
     sums.sort(key=lambda c: order.get(c.bb, 10**6))
     if not sums:
@@ -226,7 +230,7 @@ def run(ctx):
         muts = [c for c in cb.calls(MUTV) if on_tv(c) and c.bb in after and c.bb != S.bb]
         muts.sort(key=lambda c: order.get(c.bb, 10**6))
         # whole-vector reassignment after the sum
-        reassigned = [d for l in tv for d in cb.defs().get(l, []) if d[1] in after and d[1] != S.bb]
+        reassigned = [d for l in tv for d in cb.defs().get(l, []) if d[1] in after and d[1] != S.bb and cb.local_ty(l).startswith('std::collections::HashMap<') and cb.local_name(l) is not None]
         norm = None
         if muts:
             c0 = muts[0]
